@@ -58,6 +58,11 @@ def alphabet(r, base):
     A.append(T.Entry("file", b"d/..", data=b"DOTDOT2"))
     A.append(T.Entry("link", b"..", target=b"d"))
     A.append(T.Entry("link", b"d/..", target=out_abs))
+    # directory entries whose stored path is ".." after the C-string cut at a NUL byte (no trailing separator, so
+    # collapse_path leaves it): the path header carries '..' 00 ff
+    A.append(T.Entry("dir", b"..\x00/", perms=0o40777, mtime=1000000000, uid=0, gid=0))
+    A.append(T.Entry("dir", b"d/..\x00/", perms=0o40700, mtime=1000000001))
+    A.append(T.Entry("dir", b"./", perms=0o40711, mtime=1000000002))
     return A
 
 
@@ -109,7 +114,46 @@ def prepare(ctx, env):
     if lha is None:
         return "lha tool: " + err
     env["lha"] = lha
+    vh, err = core.build_vh(ctx, ["danger"])
+    if vh is None:
+        return "harness (lib/lha_reader.c is_dangerous_symlink): " + err
+    env["vh"] = vh
     return None
+
+
+def danger_spec(t):
+    """the property's predicate: a link target is dangerous iff it is absolute or has a '..' component"""
+    t = t.split(b"\0")[0]
+    return t[:1] == b"/" or b".." in t.split(b"/")
+
+
+def danger_cases(r, n):
+    import itertools
+    out = [bytes(t) for k in range(0, 8) for t in itertools.product(b"./a", repeat=k)]
+    for _ in range(n):
+        out.append(bytes(r.choice(b"../a./-\\") for _ in range(r.randrange(0, 14))))
+    return out
+
+
+def run_danger(ctx, env, targets):
+    ops = ["danger " + (t.hex() or "-") for t in targets]
+    c_out, _ = core.run_lines_parallel([env["vh"], "20"], ops)
+    m_out, _ = core.run_lines_parallel([env["lhv"]], ops) if env.get("lhv") else (None, None)
+    conc, corr = [], []
+    for i, t in enumerate(targets):
+        want = "1" if danger_spec(t) else "0"
+        rec = {"op": ops[i], "c_out": c_out[i], "tags": ["danger-predicate"]}
+        if m_out is not None:
+            rec["model_out"] = m_out[i]
+        if c_out[i] != want:
+            rec["why"] = ("link target %r: is_dangerous_symlink says %s, but 'absolute or has a .. component' is %s "
+                          "(a dangerous target treated as safe is created at once; a safe one treated as dangerous is deferred)" % (t, c_out[i], want))
+            rec["sig"] = "danger-predicate"
+            conc.append(rec)
+        elif m_out is not None and m_out[i] != c_out[i]:
+            rec["why"] = "model and implementation disagree"
+            corr.append(rec)
+    return conc, corr
 
 
 def outside_part(listing):
@@ -143,6 +187,8 @@ def run_case(ctx, env, c):
             why = "objects outside the extraction directory were created, changed, deleted or re-timed: " + outside_part(res["listing"])[:300]
         elif top_level(res["listing"]) != ["6f757473696465", "726f6f74"]:
             why = "new objects beside the extraction directory: " + str(top_level(res["listing"]))
+        elif res.get("base_changed"):
+            why = "the PARENT of the extraction directory was modified (outside the extraction directory): " + res["base_changed"]
         mop = "xrun %s %d %s - - %s" % (",".join(opts), 1 if as_root else 0, res["abs_prefix"].hex(), holder["arch"].hex())
         return {"why": why, "listing": res["listing"], "rc": res["rc"], "model_op": mop, "stderr": res["stderr"][:200]}
     else:
@@ -164,6 +210,14 @@ def evaluate(ctx, env, cases, with_model):
     with ThreadPoolExecutor(core.JOBS) as ex:
         rs = list(ex.map(lambda c: run_case(ctx, env, c), cases))
     conc, corr = [], []
+    ntargets = 0
+    if env.get("vh"):
+        targets = danger_cases(ctx.rng, 3000 if ctx.tier == "quick" else 60000)
+        ntargets = len(targets)
+        dc, dr = run_danger(ctx, env, targets)
+        conc += dc
+        corr += dr
+        ctx.dist["danger-targets"] += ntargets
     mops = [(i, r["model_op"]) for i, r in enumerate(rs) if r["model_op"]]
     mouts = {}
     if env.get("lhv") and mops:
@@ -191,7 +245,7 @@ def evaluate(ctx, env, cases, with_model):
             if mfs is None or mfs.group(1) != r["listing"] or (mres.group(1) == "1") != (r["rc"] == 0):
                 rec["why"] = "model and implementation disagree"
                 corr.append(rec)
-    return conc, corr, {"evaluations": len(cases)}
+    return conc, corr, {"evaluations": len(cases) + ntargets}
 
 
 def nontrivial(c):
